@@ -169,7 +169,7 @@ def validate(lines, invs):
 def run(pid, tier, spec, replay_file=None, extra=None):
     t0 = time.time()
     res = {'mc': [], 'states': 0, 'transitions': 0, 'generated': {}}
-    if not replay_file:
+    if not replay_file and not extra:
         clear_replays(pid)
     harness = build_harness()
     if replay_file:
